@@ -140,7 +140,7 @@ def findChildOk (T : Tables) (strict : Bool) (isMsg : Bool) (gname : Option Stri
   else .ok ()
 
 /-- admission of `child` into a group/message: `_is_valid_child` + the checks of `_can_add_child` -/
-def admit (T : Tables) (strict : Bool) (isMsg : Bool) (gname : Option String) (rows : Option (List SRow))
+def admitChild (T : Tables) (strict : Bool) (isMsg : Bool) (gname : Option String) (rows : Option (List SRow))
     (kids : List Node) (child : Node) : R Unit := do
   findChildOk T strict isMsg gname rows child.name
   if strict then
@@ -209,7 +209,7 @@ def St.curRows (s : St) : List SRow := match s.frames with | f :: _ => f.rows | 
 def addNode (T : Tables) (strict : Bool) (s : St) (n : Node) : R St :=
   match s.frames with
   | f :: fs => do
-    admit T strict false (some f.name) (some f.rows) f.kids n
+    admitChild T strict false (some f.name) (some f.rows) f.kids n
     pure { s with frames := { f with kids := f.kids ++ [n] } :: fs }
   | [] => pure { s with topKids := s.topKids ++ [n] }
 
@@ -222,7 +222,7 @@ def addNode (T : Tables) (strict : Bool) (s : St) (n : Node) : R St :=
 def openFrame (T : Tables) (strict : Bool) (s : St) (g : String) (rows : List SRow) : R St := do
   structCheck rows
   match s.frames with
-  | f :: _ => admit T strict false (some f.name) (some f.rows) f.kids (.grp g rows [])
+  | f :: _ => admitChild T strict false (some f.name) (some f.rows) f.kids (.grp g rows [])
   | [] => pure ()
   pure { s with frames := ⟨g, rows, []⟩ :: s.frames }
 
@@ -326,14 +326,14 @@ def parseMessage (tables : List Tables) (dflt : Defaults) (text : Str) (strict :
     -- a Z message has no structure: its segments are parsed flat (fix of finding D4z)
     let kids ← parseSegments T text ec strict (some rows) (findGroups && !isZMsg n.toList)
     let kids ← kids.foldlM (fun (acc : List Node) k => do
-      admit T strict true (some n) (some rows) acc k
+      admitChild T strict true (some n) (some rows) acc k
       pure (acc ++ [k])) []
     pure ⟨version, strict, ec, some n, some rows, kids⟩
   | none =>
     if strict then throw .OperationNotAllowed
     let kids ← parseSegments T text ec strict none false
     let kids ← kids.foldlM (fun (acc : List Node) k => do
-      admit T strict true none none acc k
+      admitChild T strict true none none acc k
       pure (acc ++ [k])) []
     pure ⟨version, strict, ec, none, none, kids⟩
 
